@@ -4,6 +4,7 @@ import (
 	"encoding/binary"
 	"errors"
 	"fmt"
+	"io"
 )
 
 // HeaderHash
@@ -2368,21 +2369,22 @@ func (m *MetaCode) Decode(d *Decoder) error {
 		return err
 	}
 
-	if length == 0 {
-		return nil
+	// the metadata length comes from the (untrusted) blob: it cannot exceed what is left
+	if length > uint64(d.buf.Len()) {
+		return fmt.Errorf("MetaCode: metadata length %d exceeds the remaining %d bytes", length, d.buf.Len())
 	}
 
 	// Decode the Metadata
 	metadata := make([]byte, length)
-	if _, err = d.buf.Read(metadata); err != nil {
+	if _, err = io.ReadFull(d.buf, metadata); err != nil {
 		return err
 	}
 
 	m.Metadata = ByteSequence(metadata)
 
-	// Decode the Code (remaining bytes)
+	// Decode the Code (remaining bytes; empty metadata is followed by the code like any other)
 	code := make([]byte, d.buf.Len())
-	if _, err = d.buf.Read(code); err != nil {
+	if _, err = io.ReadFull(d.buf, code); err != nil {
 		return err
 	}
 
